@@ -576,6 +576,10 @@ pub fn panic_sig(file: &str, msg: &str) -> String {
     format!("panic@{}:{}", file, m)
 }
 
+pub fn take_last_panic() -> Option<(String, String)> {
+    LAST_PANIC.with(|p| p.borrow_mut().take())
+}
+
 pub fn catch<T>(f: impl FnOnce() -> T) -> Result<T, String> {
     LAST_PANIC.with(|p| *p.borrow_mut() = None);
     match std::panic::catch_unwind(std::panic::AssertUnwindSafe(f)) {
